@@ -62,7 +62,7 @@ RInt(m, i, line) == IF IntOk(i) THEN R(m, IntV(i)) ELSE R(Raise(m, "spec_domain"
 
 Builtins == {"set", "len", "range", "list", "tuple", "bool", "int", "str", "repr", "type", "sorted",
              "reversed", "enumerate", "zip", "min", "max", "any", "all", "abs", "fail", "emit", "dict",
-             "struct", "chr", "ord", "getattr", "hasattr"}
+             "struct", "chr", "ord", "getattr", "hasattr", "map", "filter", "partial"}
 
 (* ------------------------------------------------------------------ names and frames *)
 NameIdx(names, n) == IF \E i \in 1..Len(names) : names[i] = n
@@ -619,11 +619,17 @@ Assign(tg, v, env, m, line) ==
 (* ---- calls ---- *)
 (* tick: TRUE for a call instruction of the program, FALSE for a call made by native code *)
 CallV(f, pos, named, m0, line, tick) ==
-    LET m == IF tick /\ (f.t = "bi" \/ IsFn(f, m0.heap)) THEN Tick(m0, line) ELSE m0 IN
+    LET m == IF tick /\ (f.t \in {"bi", "partial"} \/ IsFn(f, m0.heap)) THEN Tick(m0, line) ELSE m0 IN
     IF ~Ok(m) THEN R(m, NoneV)
     ELSE IF f.t = "bi" THEN
         (IF m.depth + 1 >= m.cap THEN R(Raise(m, "depth", line), NoneV) ELSE CallBuiltin(f.name, pos, named, m, line))
     ELSE IF f.t = "bm" THEN CallMethod(f.self, f.name, pos, named, m, line)
+    ELSE IF f.t = "partial" THEN
+        \* stored arguments first; a keyword given both at creation and at the call is an error
+        (IF \E p \in 1..Len(f.named), q \in 1..Len(named) : f.named[p][1] = named[q][1] THEN R(Raise(m, "arity", line), NoneV)
+         ELSE IF m.depth + 1 >= m.cap THEN R(Raise(m, "depth", line), NoneV)
+         ELSE LET r == CallV(f.f, f.pos \o pos, f.named \o named, [m EXCEPT !.depth = @ + 1], line, FALSE) IN
+              IF Ok(r.m) THEN R([r.m EXCEPT !.depth = @ - 1], r.v) ELSE r)
     ELSE IF IsFn(f, m.heap) THEN CallFn(f.a, pos, named, m, line)
     ELSE R(Raise(m, "type", line), NoneV)
 
@@ -919,6 +925,20 @@ CallBuiltin(name, pos, named, m, line) ==
                   rev == NamedVal(named, N_reverse, BoolV(FALSE)) IN
               IF ~io.ok THEN TypeE(m, line)
               ELSE SortWithKey(io.items, io.a, keyf, Truth(rev, h), m, line))
+    ELSE IF name = "map" \/ name = "filter" THEN
+        \* the callback runs WHILE the argument is iterated (locked), in the builtin's own frame
+        (IF n # 2 \/ Len(named) # 0 THEN Arity(m, line)
+         ELSE IF ~(pos[1].t \in {"bi", "bm", "partial"} \/ IsFn(pos[1], h) \/ (name = "filter" /\ pos[1].t = "none")) THEN TypeE(m, line)
+         ELSE LET io == IterOf(pos[2], h) IN
+              IF ~io.ok THEN TypeE(m, line)
+              ELSE LET ks == KeysUnderLock(pos[1], io.items, io.a, m, line) IN
+                   IF ~Ok(ks.m) THEN R(ks.m, NoneV)
+                   ELSE IF name = "map" THEN NewList(ks.m, ks.vs)
+                   ELSE LET keep == SelectSeq([j \in 1..Len(io.items) |-> j], LAMBDA j : Truth(ks.vs[j], ks.m.heap))
+                        IN NewList(ks.m, [j \in 1..Len(keep) |-> io.items[keep[j]]]))
+    ELSE IF name = "partial" THEN
+        (IF n < 1 THEN Arity(m, line)
+         ELSE R(m, [t |-> "partial", f |-> pos[1], pos |-> Tail(pos), named |-> named]))
     ELSE IF name = "min" \/ name = "max" THEN
         (IF n = 0 \/ ~NamedOnly(named, {N_key}) THEN Arity(m, line)
          ELSE LET io == IF n = 1 THEN IterOf(pos[1], h) ELSE [ok |-> TRUE, items |-> pos, a |-> 0]
